@@ -280,6 +280,7 @@ def run(chk):
     full = Program.load("default")
     _envuse_rule(chk, full)
     _symmap_rule(chk, full)
+    _abstractinit_rule(chk, full)
 
 
 def _envvalid_rule(chk, prog):
@@ -1363,3 +1364,63 @@ def _symmap_rule(chk, prog):
                                       "`%s` subscripts with `%s`, a symbol-map field that images and asm input supply unchecked, on a path with no "
                                       "upper-bound comparison of it: out-of-bounds read" % (sx.text()[:60], ft))
     chk.floor(rule, 4, n_sites)
+
+
+def _abstractinit_rule(chk, prog):
+    """janet_unmarshal_abstract puts a new, uninitialised abstract on the collector's heap at once.  If the unmarshal
+    hook then raises (the image ends, a field is out of range) the object stays there, and the next collection runs the
+    type's finalizer over whatever the allocator left in the block.  A hook of a type that has a finalizer must therefore
+    bring the object into a finalizable state before it reads anything more from the image.  Hooks that refuse to run
+    without JANET_MARSHAL_UNSAFE are not reachable from untrusted bytes and are left out."""
+    rule = "C10-ABSTRACTINIT"
+    chk.rule(rule, "an unmarshal hook of an abstract type with a finalizer initialises the new object before any further read that can raise")
+    from rules.c03 import abstract_types
+    READERS = ("janet_unmarshal_int", "janet_unmarshal_int64", "janet_unmarshal_size", "janet_unmarshal_byte", "janet_unmarshal_bytes",
+               "janet_unmarshal_janet", "janet_unmarshal_ptr", "janet_panic", "janet_panicf", "janet_panicv")
+    n = 0
+    for tu, name, vals in abstract_types(prog):
+        gc = vals.get("gc")
+        um = vals.get("unmarshal")
+        if gc is None or um is None or gc.k != "ref" or um.k != "ref":
+            continue
+        fn = next((f for f in prog.all_funcs() if f.name == um.name), None)
+        if fn is None:
+            continue
+        allocs = fn.calls("janet_unmarshal_abstract", "janet_unmarshal_abstract_threaded")
+        if not allocs:
+            continue
+        # refuses untrusted input before allocating?
+        first = min(a.ln for a in allocs)
+        def unsafe_test(c):
+            return any("JANET_MARSHAL_UNSAFE" in y.macro_names() or "JANET_MARSHAL_UNSAFE" in y.text() for y in c.walk())
+        gate = [c for c in fn.nodes if c.k == "if" and c.ln < first and unsafe_test(c.kids[0])
+                and any((y.k == "call" and prog.is_noreturn(y.callee or "")) for y in c.kids[1].walk())]
+        wholly_gated = any(c.k == "if" and unsafe_test(c.kids[0]) and any(a in list(c.kids[1].walk()) for a in allocs) for c in fn.nodes)
+        n += 1
+        chk.instance(rule)
+        chk.analysed(fn)
+        if gate or wholly_gated:
+            chk.ok(rule, "%s (%s): runs only under JANET_MARSHAL_UNSAFE - not reachable from untrusted images" % (fn.name, name))
+            continue
+
+        def transfer(st, x):
+            if x in allocs:
+                return frozenset(["raw"])
+            if x.k == "call" and "raw" in st and x.callee and x.callee not in READERS and x.args and \
+                    any(is_ref(strip_casts(a)) for a in x.args[:1]) and ("init" in x.callee):
+                return frozenset()
+            return st
+        IN, OUT = flow.forward(fn, frozenset(), transfer, lambda a, b: a | b)
+        bad = None
+        for x, st in flow.states_at(fn, IN, transfer):
+            # only the threaded variant raises by itself (it needs the unsafe flag); it allocates nothing before that
+            if "raw" in st and x.k == "call" and x.callee in READERS:
+                bad = bad or x
+        if bad is None:
+            chk.ok(rule, "%s (%s): object initialised before the next read" % (fn.name, name))
+        else:
+            chk.violation(rule, fn.tu.name, fn.name, "raw-at:%s" % bad.callee, bad.loc,
+                          "`%s` can raise while the abstract allocated by janet_unmarshal_abstract is still uninitialised; the object is "
+                          "already on the heap and %s (its finalizer) will run over uninitialised memory at the next collection" % (
+                              bad.text()[:50], gc.name))
+    chk.floor(rule, 2, n)
